@@ -101,7 +101,8 @@ func runC18(c c18Case, rec *stat.Rec) *stat.Failure {
 			sz = c.Sizes[(i-len(c.Head))%len(c.Sizes)]
 		}
 		sizesUsed[sz] = true
-		for j := range buf {
+		// canary right behind p (filling the whole scratch buffer on every call would dominate the run time for 1-byte reads)
+		for j := sz; j < sz+8; j++ {
 			buf[j] = 0xA7
 		}
 		n, err := cr.Read(buf[:sz])
@@ -109,7 +110,7 @@ func runC18(c c18Case, rec *stat.Rec) *stat.Failure {
 		if n < 0 || n > sz {
 			return stat.Failf("C18/n-out-of-range", "%s returned n=%d", desc, n)
 		}
-		for j := sz; j < len(buf); j++ {
+		for j := sz; j < sz+8; j++ {
 			if buf[j] != 0xA7 {
 				return stat.Failf("C18/writes-beyond-len(p)", "%s wrote at p[%d]", desc, j)
 			}
@@ -133,8 +134,9 @@ func runC18(c c18Case, rec *stat.Rec) *stat.Failure {
 		if n == sz && sz > 0 {
 			pendingSeen = true
 		}
-		if i > 1<<22 {
-			return stat.Failf("C18/never-ends", "%s: no end after 2^22 calls", desc)
+		// every cycle through the sizes delivers at least one byte, and the frame is at most a little larger than the input
+		if limit := (len(data) + len(data)/128 + 1<<16) * (len(c.Sizes) + len(c.Head) + 1); i > limit {
+			return stat.Failf("C18/never-ends", "%s: no end after %d calls", desc, limit)
 		}
 	}
 	desc := fmt.Sprintf("%s, %d bytes in, head %v sizes %v, source chunks %v", c.Opts, len(data), c.Head, c.Sizes, c.Src)
@@ -194,7 +196,7 @@ func drawC18(t *rapid.T) c18Case {
 		c.Opts.BS = 4
 	}
 	bs := c.Opts.blockSize()
-	n := sizeAround(t, bs, pick(300<<10, 5<<20))
+	n := sizeAround(t, bs, pick(300<<10, 4<<20+4096))
 	if c.Opts.Level != 0 && n > 200<<10 {
 		n = 200 << 10
 	}
